@@ -4,7 +4,7 @@
 From Coq Require Import ZArith List Bool Arith Lia.
 From SP Require Import Base.Sat Base.Bits.
 From SP Require Import Design.Flat Design.Layout Design.Sem.
-From SP Require Import Encode.Compile Encode.CodeSem Encode.Runs Encode.GridLemmas Encode.LayoutF1 Encode.F1Kinds.
+From SP Require Import Encode.Compile Encode.CodeSem Encode.Runs Encode.GridLemmas Encode.LayoutF1 Encode.PrevArith Encode.F1Kinds.
 Import ListNotations.
 Close Scope Z_scope.
 Open Scope nat_scope.
@@ -43,8 +43,10 @@ Notation Facts := (in_f1_facts fb HF1).
 
 Definition lev_of (c : cell) : nat := match c with Some x => x | None => 0 end.
 
-(** the cell of a factor of [act_design]: the level whose variable is on *)
-Definition cell_act (s : asg) (t f : nat) : cell := find (fun l => bit s t f l) (seq 0 (nlevels fb f)).
+(** the cell of a factor of [act_design]: the level whose variable is on, nothing
+    in the trials in which a factor with a complex window has no level *)
+Definition cell_act (s : asg) (t f : nat) : cell :=
+  if lappl fb f t then find (fun l => bit s t f l) (seq 0 (nlevels fb f)) else None.
 
 (** the rows of the factors of [act_design] as a sequence (the other rows are not read) *)
 Definition dec_act (s : asg) : tseq :=
@@ -82,9 +84,12 @@ Definition decode (s : asg) : tseq :=
 Definition onehot (s : asg) (q : tseq) : Prop :=
   length q = nf fb /\
   (forall f, f < nf fb -> length (nth f q []) = T fb) /\
-  (forall t f, t < T fb -> isact fb f = true -> exists l, l < nlevels fb f /\ get_cell q f t = Some l) /\
-  (forall t f l, t < T fb -> isact fb f = true -> l < nlevels fb f -> bit s t f l = is_level l (get_cell q f t)) /\
-  (forall t f, t < T fb -> f < nf fb -> isact fb f = false -> get_cell q f t = cell_impl s t f).
+  (forall t f, t < T fb -> isact fb f = true -> lappl fb f t = true ->
+     exists l, l < nlevels fb f /\ get_cell q f t = Some l) /\
+  (forall t f l, t < T fb -> isact fb f = true -> lappl fb f t = true -> l < nlevels fb f ->
+     bit s t f l = is_level l (get_cell q f t)) /\
+  (forall t f, t < T fb -> f < nf fb -> isact fb f = false -> get_cell q f t = cell_impl s t f) /\
+  (forall t f, t < T fb -> isact fb f = true -> lappl fb f t = false -> get_cell q f t = None).
 
 Lemma decode_cell s t f : t < T fb -> f < nf fb -> get_cell (decode s) f t = cell_of s t f.
 Proof.
@@ -143,21 +148,34 @@ Proof. intros E. unfold nlevels, factor_at. now rewrite E. Qed.
 Lemma f1_sustain1 f : sustain_of fb f = 1.
 Proof. exact (f1_sustain fb Facts f). Qed.
 
-(** a factor of [act_design] has a level in every trial *)
-Lemma appl_act f t : isact fb f = true -> appl f t = true.
+(** [Sem.applies] on [code_sem] is [Factor.applies_to_trial] of the layout *)
+Lemma appl_lappl f t : appl f t = lappl fb f t.
 Proof.
-  intros Ha. unfold appl, factor_at. destruct (nth_error (fl_design fb) f) as [fd|] eqn:Efd; [|reflexivity].
-  unfold applies. cbn [f_derived code_factor]. destruct (ff_window fd) as [w|] eqn:Ew; [|reflexivity].
-  pose proof (f1_factor fb Facts f fd Efd Ha) as H. unfold factor_f1 in H. rewrite Ew in H.
-  rewrite !andb_true_iff in H. destruct H as [_ [[_ H2] H3]]. apply Nat.eqb_eq in H2, H3.
-  cbn [w_start w_stride]. rewrite H2, H3. rewrite Nat.mod_1_r. reflexivity.
+  unfold appl. destruct (factor_at fb f) as [fd|] eqn:Efd.
+  - unfold applies. cbn [f_derived code_factor f_sustain]. destruct (ff_window fd) as [w|] eqn:Ew.
+    + rewrite (lappl_window fb f fd w t Efd Ew (f1_sustain fb Facts f)).
+      cbn [w_start w_stride]. rewrite (f1_sustain1 f), Nat.div_1_r. reflexivity.
+    + unfold lappl, applies_at, applies_to_trial. now rewrite Efd, Ew.
+  - unfold lappl, applies_at, applies_to_trial. now rewrite Efd.
+Qed.
+
+Lemma applies_lappl f fd t : nth_error (fl_design fb) f = Some fd -> applies (code_factor fb f fd) t = lappl fb f t.
+Proof. intros Efd. rewrite <- appl_lappl. unfold appl, factor_at. now rewrite Efd. Qed.
+
+(** a factor of [act_design] without a complex window has a level in every trial *)
+Lemma appl_act f t : isact fb f = true -> is_complex fb f = false -> appl f t = true.
+Proof. intros Ha Hc. rewrite appl_lappl. now apply (lappl_simple fb HF1). Qed.
+
+Lemma sact_lappl d t : sact fb d = true -> isact fb d = true /\ lappl fb d t = true.
+Proof.
+  intros H. apply (sact_split fb) in H. destruct H as [Ha Hc]. split; [exact Ha|now apply (lappl_simple fb HF1)].
 Qed.
 
 (** an implied factor of an F1 record: its window never reads before the first
     trial, its dependencies are in [act_design], one level accepts every argument tuple *)
 Lemma implied_facts f : f < nf fb -> isact fb f = false ->
   exists fd w, nth_error (fl_design fb) f = Some fd /\ ff_window fd = Some w /\
-               Forall (fun d => isact fb d = true) (win_deps w) /\
+               Forall (fun d => sact fb d = true) (win_deps w) /\
                0 < win_width w /\ 0 < win_stride w /\ win_width w - 1 <= win_start w /\
                (forall args, In args (all_args fb w) ->
                   length (filter (fun l => accepts (dwin fd w) l args) (seq 0 (nlevels fb f))) = 1).
@@ -221,14 +239,14 @@ Proof.
 Qed.
 
 (** on a consistent grid every act cell is a level in range *)
-Lemma pcons_cell_act s t f : Pcons fb s -> t < T fb -> isact fb f = true ->
+Lemma pcons_cell_act s t f : Pcons fb s -> t < T fb -> isact fb f = true -> lappl fb f t = true ->
   exists i, i < nlevels fb f /\ cell_act s t f = Some i /\ forall l, l < nlevels fb f -> bit s t f l = (l =? i).
 Proof.
-  intros H Ht Hf. specialize (H t f Ht Hf). apply ntrue_one in H. destruct H as (i & Hi & Hn).
+  intros H Ht Hf Hap. specialize (H t f Ht Hf Hap). apply ntrue_one in H. destruct H as (i & Hi & Hn).
   rewrite map_length, seq_length in Hi, Hn. exists i. split; [exact Hi|].
   assert (Hb : forall l, l < nlevels fb f -> bit s t f l = (l =? i)).
   { intros l Hl. rewrite <- (Hn l Hl). now rewrite nth_map_seq. }
-  split; [|exact Hb]. unfold cell_act. now apply find_unique.
+  split; [|exact Hb]. unfold cell_act. rewrite Hap. now apply find_unique.
 Qed.
 
 (** ... and every implied cell is the level its table derives, where the factor applies *)
@@ -240,9 +258,10 @@ Proof.
   destruct (applies (code_factor fb f fd) t) eqn:Hap; [|reflexivity].
   assert (Hin : In (window_args (dec_act s) (code_factor fb f fd) (dwin fd w) t) (all_args fb w)).
   { apply impl_window_in; try assumption. intros d t' Hd Ht'.
-    pose proof (proj1 (Forall_forall _ _) Hdeps d Hd) as Hda. cbv beta in Hda.
+    pose proof (proj1 (Forall_forall _ _) Hdeps d Hd) as Hds. cbv beta in Hds.
+    destruct (sact_lappl d t' Hds) as [Hda Hdl].
     rewrite (dec_act_cell s t' d ltac:(lia) (f1_act_lt fb HF1 d Hda)).
-    destruct (pcons_cell_act s t' d H ltac:(lia) Hda) as (i & Hi & Ei & _). now exists i. }
+    destruct (pcons_cell_act s t' d H ltac:(lia) Hda Hdl) as (i & Hi & Ei & _). now exists i. }
   specialize (Htot _ Hin).
   destruct (find (fun l => accepts (dwin fd w) l (window_args (dec_act s) (code_factor fb f fd) (dwin fd w) t))
                  (seq 0 (nlevels fb f))) as [l|] eqn:El.
@@ -258,49 +277,103 @@ Theorem pcons_onehot s : Pcons fb s <-> onehot s (decode s).
 Proof.
   split.
   - intros H. split; [unfold decode; now rewrite map_length, seq_length|]. split; [intros f Hf; now apply decode_row_length|].
-    split; [|split].
-    + intros t f Ht Ea. rewrite decode_cell by (try assumption; now apply (f1_act_lt fb HF1)). unfold cell_of. rewrite Ea.
-      destruct (pcons_cell_act s t f H Ht Ea) as (i & Hi & Hc & _). exists i. now split.
-    + intros t f l Ht Hf Hl. destruct (pcons_cell_act s t f H Ht Hf) as (i & Hi & Hc & Hb).
+    split; [|split; [|split]].
+    + intros t f Ht Ea Hap. rewrite decode_cell by (try assumption; now apply (f1_act_lt fb HF1)). unfold cell_of. rewrite Ea.
+      destruct (pcons_cell_act s t f H Ht Ea Hap) as (i & Hi & Hc & _). exists i. now split.
+    + intros t f l Ht Hf Hap Hl. destruct (pcons_cell_act s t f H Ht Hf Hap) as (i & Hi & Hc & Hb).
       rewrite decode_cell by (try assumption; now apply (f1_act_lt fb HF1)). unfold cell_of. rewrite Hf, Hc, is_level_some.
       rewrite (Hb l Hl). apply Nat.eqb_sym.
     + intros t f Ht Hf Ha. rewrite decode_cell by assumption. unfold cell_of. now rewrite Ha.
-  - intros (_ & _ & Hc & Hb & _) t f Ht Hf. destruct (Hc t f Ht Hf) as (i & Hi & Ei).
+    + intros t f Ht Hf Hap. rewrite decode_cell by (try assumption; now apply (f1_act_lt fb HF1)). unfold cell_of, cell_act.
+      now rewrite Hf, Hap.
+  - intros (_ & _ & Hc & Hb & _) t f Ht Hf Hap. destruct (Hc t f Ht Hf Hap) as (i & Hi & Ei).
     apply ntrue_one. rewrite map_length, seq_length. exists i. split; [exact Hi|]. intros j Hj.
     rewrite nth_map_seq by exact Hj.
-    rewrite (Hb t f j Ht Hf Hj), Ei, is_level_some. apply Nat.eqb_sym.
+    rewrite (Hb t f j Ht Hf Hap Hj), Ei, is_level_some. apply Nat.eqb_sym.
 Qed.
 
 Lemma onehot_pcons s q : onehot s q -> Pcons fb s.
 Proof.
-  intros (_ & _ & Hc & Hb & _) t f Ht Hf. destruct (Hc t f Ht Hf) as (i & Hi & Ei).
+  intros (_ & _ & Hc & Hb & _) t f Ht Hf Hap. destruct (Hc t f Ht Hf Hap) as (i & Hi & Ei).
   apply ntrue_one. rewrite map_length, seq_length. exists i. split; [exact Hi|]. intros j Hj.
   rewrite nth_map_seq by exact Hj.
-  rewrite (Hb t f j Ht Hf Hj), Ei, is_level_some. apply Nat.eqb_sym.
+  rewrite (Hb t f j Ht Hf Hap Hj), Ei, is_level_some. apply Nat.eqb_sym.
 Qed.
 
 (** a one-hot grid determines the sequence *)
 Lemma onehot_cell_act s q t f : onehot s q -> t < T fb -> isact fb f = true -> get_cell q f t = cell_act s t f.
 Proof.
-  intros (_ & _ & Hc & Hb & _) Ht Hf. destruct (Hc t f Ht Hf) as (i & Hi & Ei). rewrite Ei. symmetry.
-  unfold cell_act. apply find_unique; [exact Hi|]. intros j Hj. rewrite (Hb t f j Ht Hf Hj), Ei, is_level_some. apply Nat.eqb_sym.
+  intros (_ & _ & Hc & Hb & _ & Hn) Ht Hf. unfold cell_act. destruct (lappl fb f t) eqn:Hap; [|now apply Hn].
+  destruct (Hc t f Ht Hf Hap) as (i & Hi & Ei). rewrite Ei. symmetry.
+  apply find_unique; [exact Hi|]. intros j Hj. rewrite (Hb t f j Ht Hf Hap Hj), Ei, is_level_some. apply Nat.eqb_sym.
 Qed.
 
 Lemma onehot_cell s q t f : onehot s q -> t < T fb -> f < nf fb -> get_cell q f t = cell_of s t f.
 Proof.
   intros Ho Ht Hf. unfold cell_of. destruct (isact fb f) eqn:Ea.
   - now apply onehot_cell_act.
-  - destruct Ho as (_ & _ & _ & _ & Hi). now apply Hi.
+  - destruct Ho as (_ & _ & _ & _ & Hi & _). now apply Hi.
 Qed.
 
+(** a cell of a factor without a complex window is a level *)
+Lemma onehot_simple_cell s q t f : onehot s q -> t < T fb -> isact fb f = true -> is_complex fb f = false ->
+  exists l, l < nlevels fb f /\ get_cell q f t = Some l.
+Proof. intros (_ & _ & Hc & _) Ht Hf Hcx. apply (Hc t f Ht Hf). now apply (lappl_simple fb HF1). Qed.
+
+Lemma onehot_simple_bit s q t f l : onehot s q -> t < T fb -> isact fb f = true -> is_complex fb f = false ->
+  l < nlevels fb f -> bit s t f l = is_level l (get_cell q f t).
+Proof. intros (_ & _ & _ & Hb & _) Ht Hf Hcx Hl. apply (Hb t f l Ht Hf); [now apply (lappl_simple fb HF1)|exact Hl]. Qed.
+
 (** * Columns of a one-hot grid are the rows of the sequence *)
-Lemma col_slice s q f l a b :
-  onehot s q -> isact fb f = true -> l < nlevels fb f -> b <= T fb ->
-  col s f l a b = map (is_level l) (slice (nth f q []) a b).
+Lemma bruns_false_prefix k bs : bruns (repeat false k ++ bs) = bruns bs.
+Proof. induction k as [|k IH]; [reflexivity|]. cbn [repeat app]. unfold bruns in *. cbn [bruns_aux Nat.eqb]. exact IH. Qed.
+
+Lemma map_all_false {A} (g : A -> bool) (xs : list A) :
+  (forall x, In x xs -> g x = false) -> map g xs = repeat false (length xs).
 Proof.
-  intros (Hq & Hr & Hc & Hb & _) Hf Hl Hbt. rewrite (map_seq_slice (is_level l) (nth f q []) None a b) by (rewrite Hr; [assumption|now apply (f1_act_lt fb HF1)]).
-  unfold F1Kinds.col. apply map_ext_in. intros t Ht. apply in_seq in Ht. apply (Hb t f l ltac:(lia) Hf Hl).
+  induction xs as [|x xs IH]; intros H; [reflexivity|]. cbn [map length repeat].
+  rewrite (H x (or_introl eq_refl)), IH; [reflexivity|]. intros y Hy. apply H. now right.
 Qed.
+
+Lemma ntrue_false_prefix k bs : ntrue (repeat false k ++ bs) = ntrue bs.
+Proof. now rewrite ntrue_app, ntrue_repeat_false. Qed.
+
+(** for a factor whose levels exist from its first trial on (stride 1) the row
+    slice is the column preceded by the cells without a level *)
+Lemma col_slice s q f l a b :
+  onehot s q -> isact fb f = true -> stride1 fb f = true -> l < nlevels fb f -> b <= T fb ->
+  exists k, map (is_level l) (slice (nth f q []) a b) = repeat false k ++ col s f l a b.
+Proof.
+  intros (Hq & Hr & Hc & Hb & _ & Hn) Hf Hs Hl Hbt.
+  rewrite (map_seq_slice (is_level l) (nth f q []) None a b) by (rewrite Hr; [assumption|now apply (f1_act_lt fb HF1)]).
+  unfold F1Kinds.col. rewrite (trials_of_stride1 fb HF1 f a b Hf Hs).
+  set (st := start_of fb f). set (m := Nat.max a st).
+  assert (Hlap : forall t, lappl fb f t = (st <=? t)) by (intros t; apply (lappl_stride1 fb HF1 f t Hf Hs)).
+  destruct (Nat.le_gt_cases m b) as [Hmb|Hmb].
+  - exists (m - a). replace (b - a) with ((m - a) + (b - m)) by lia. rewrite seq_app, map_app.
+    replace (a + (m - a)) with m by lia. f_equal.
+    + rewrite map_all_false; [now rewrite seq_length|].
+      intros t Ht. apply in_seq in Ht.
+      change (nth t (nth f q []) None) with (get_cell q f t).
+      rewrite (Hn t f ltac:(lia) Hf); [reflexivity|]. rewrite Hlap. apply Nat.leb_gt. lia.
+    + apply map_ext_in. intros t Ht. apply in_seq in Ht. symmetry.
+      apply (Hb t f l ltac:(lia) Hf); [|exact Hl]. rewrite Hlap. apply Nat.leb_le. lia.
+  - exists (b - a). replace (b - m) with 0 by lia. cbn [seq map]. rewrite app_nil_r.
+    rewrite map_all_false; [now rewrite seq_length|].
+    intros t Ht. apply in_seq in Ht.
+    change (nth t (nth f q []) None) with (get_cell q f t).
+    rewrite (Hn t f ltac:(lia) Hf); [reflexivity|]. rewrite Hlap. apply Nat.leb_gt. lia.
+Qed.
+
+Lemma col_bruns s q f l a b :
+  onehot s q -> isact fb f = true -> stride1 fb f = true -> l < nlevels fb f -> b <= T fb ->
+  bruns (map (is_level l) (slice (nth f q []) a b)) = bruns (col s f l a b).
+Proof. intros Ho Hf Hs Hl Hb. destruct (col_slice s q f l a b Ho Hf Hs Hl Hb) as (k & ->). apply bruns_false_prefix. Qed.
+
+Lemma col_ntrue s q f l a b :
+  onehot s q -> isact fb f = true -> stride1 fb f = true -> l < nlevels fb f -> b <= T fb ->
+  ntrue (map (is_level l) (slice (nth f q []) a b)) = ntrue (col s f l a b).
+Proof. intros Ho Hf Hs Hl Hb. destruct (col_slice s q f l a b Ho Hf Hs Hl Hb) as (k & ->). apply ntrue_false_prefix. Qed.
 
 Definition sem := code_sem fb.
 
@@ -309,16 +382,16 @@ Theorem atmost_sem s q k f l wb :
   onehot s q -> constraint_f1 fb (FAtMost k f l wb) = true ->
   (Patmost fb k f l wb s <-> constraint_ok sem q (mk_c (KAtMost k) f l (windows_of fb wb)) = true).
 Proof.
-  intros Ho Hc. cbn [constraint_f1] in Hc. rewrite !andb_true_iff in Hc. destruct Hc as [[Hf Hl] Hg].
+  intros Ho Hc. cbn [constraint_f1] in Hc. rewrite !andb_true_iff in Hc. destruct Hc as [[[Hf Hl] Hg] Hst].
   apply Nat.ltb_lt in Hl. destruct (geom_ok_some fb wb Hg) as [rs Ers].
   pose proof (f1_ranges_bound fb wb rs Ers) as Hb. rewrite (ranges_of fb wb rs Ers) in *.
   unfold Patmost, constraint_ok, mk_c. cbn [k_kind k_factor k_level k_windows]. rewrite (ranges_of fb wb rs Ers).
   rewrite forallb_forall, Forall_forall. split; intros H r Hr; specialize (H r Hr);
     pose proof (proj1 (Forall_forall _ _) Hb r Hr) as [_ Hr2].
   - rewrite forallb_forall. intros n Hn. apply Nat.leb_le.
-    rewrite runs_bruns, <- (col_slice s q f l (fst r) (snd r) Ho Hf Hl Hr2) in Hn.
+    rewrite runs_bruns, (col_bruns s q f l (fst r) (snd r) Ho Hf Hst Hl Hr2) in Hn.
     apply (proj1 (atmost_windows_runs k _)) in H. exact (proj1 (Forall_forall _ _) H n Hn).
-  - rewrite (col_slice s q f l (fst r) (snd r) Ho Hf Hl Hr2). apply atmost_windows_runs. rewrite <- runs_bruns.
+  - apply atmost_windows_runs. rewrite <- (col_bruns s q f l (fst r) (snd r) Ho Hf Hst Hl Hr2), <- runs_bruns.
     apply Forall_forall. intros n Hn. rewrite forallb_forall in H. apply Nat.leb_le. now apply H.
 Qed.
 
@@ -327,14 +400,14 @@ Theorem exactlyk_sem s q k f l wb :
   onehot s q -> constraint_f1 fb (FExactlyK k f l wb) = true ->
   (Pexactlyk fb k f l wb s <-> constraint_ok sem q (mk_c (KExactlyK k) f l (windows_of fb wb)) = true).
 Proof.
-  intros Ho Hc. cbn [constraint_f1] in Hc. rewrite !andb_true_iff in Hc. destruct Hc as [[[Hf Hl] Hg] _].
+  intros Ho Hc. cbn [constraint_f1] in Hc. rewrite !andb_true_iff in Hc. destruct Hc as [[[[Hf Hl] Hg] Hst] _].
   apply Nat.ltb_lt in Hl. destruct (geom_ok_some fb wb Hg) as [rs Ers].
   pose proof (f1_ranges_bound fb wb rs Ers) as Hb.
   unfold Pexactlyk, constraint_ok, mk_c. cbn [k_kind k_factor k_level k_windows]. rewrite (ranges_of fb wb rs Ers).
   rewrite forallb_forall, Forall_forall. split; intros H r Hr; specialize (H r Hr);
     pose proof (proj1 (Forall_forall _ _) Hb r Hr) as [_ Hr2].
-  - apply Nat.eqb_eq. now rewrite count_level_ntrue, <- (col_slice s q f l (fst r) (snd r) Ho Hf Hl Hr2).
-  - apply Nat.eqb_eq in H. now rewrite (col_slice s q f l (fst r) (snd r) Ho Hf Hl Hr2), <- count_level_ntrue.
+  - apply Nat.eqb_eq. now rewrite count_level_ntrue, (col_ntrue s q f l (fst r) (snd r) Ho Hf Hst Hl Hr2).
+  - apply Nat.eqb_eq in H. now rewrite <- (col_ntrue s q f l (fst r) (snd r) Ho Hf Hst Hl Hr2), <- count_level_ntrue.
 Qed.
 
 (** * (b) for Exclude *)
@@ -345,9 +418,9 @@ Theorem exclude_sem s q f l :
   onehot s q -> constraint_f1 fb (FExclude f l) = true ->
   (Pexclude fb f l s <-> constraint_ok sem q (mk_c KExclude f l []) = true).
 Proof.
-  intros Ho Hc. cbn [constraint_f1] in Hc. rewrite !andb_true_iff in Hc. destruct Hc as [Hf Hl]. apply Nat.ltb_lt in Hl.
+  intros Ho Hc. cbn [constraint_f1] in Hc. rewrite !andb_true_iff in Hc. destruct Hc as [[Hf Hl] Hst]. apply Nat.ltb_lt in Hl.
   unfold Pexclude, constraint_ok, mk_c. cbn [k_kind k_factor k_level k_windows].
-  rewrite (col_slice s q f l 0 (T fb) Ho Hf Hl (le_n _)).
+  rewrite <- (col_ntrue s q f l 0 (T fb) Ho Hf Hst Hl (le_n _)).
   destruct Ho as (_ & Hr & _). rewrite <- (Hr f (f1_act_lt fb HF1 f Hf)), slice_full, <- count_level_ntrue. symmetry. apply Nat.eqb_eq.
 Qed.
 
@@ -356,8 +429,8 @@ Theorem pin_sem s q i f l wb :
   onehot s q -> constraint_f1 fb (FPin i f l wb) = true ->
   (Ppin fb i f l wb s <-> constraint_ok sem q (mk_c (KPin i (geometry_sustain fb wb f)) f l (windows_of fb wb)) = true).
 Proof.
-  intros Ho Hc. cbn [constraint_f1] in Hc. rewrite !andb_true_iff in Hc. destruct Hc as [[[Hf Hl] Hg] Hs].
-  apply Nat.ltb_lt in Hl. apply Nat.eqb_eq in Hs. destruct (geom_ok_some fb wb Hg) as [rs Ers].
+  intros Ho Hc. cbn [constraint_f1] in Hc. rewrite !andb_true_iff in Hc. destruct Hc as [[[[Hf Hcx] Hl] Hg] Hs].
+  apply Nat.ltb_lt in Hl. apply Nat.eqb_eq in Hs. apply negb_true_iff in Hcx. destruct (geom_ok_some fb wb Hg) as [rs Ers].
   pose proof (f1_ranges_bound fb wb rs Ers) as Hb.
   unfold Ppin, pins, constraint_ok, mk_c. cbn [k_kind k_factor k_level k_windows].
   rewrite (ranges_of fb wb rs Ers), Hs, (f1_trial_numbers fb f i wb rs Hs Ers).
@@ -378,7 +451,7 @@ Proof.
              cell_eqb (nth (Z.to_nat (pos' r) + 0) (nth f q []) None) (Some l) = true)).
   { intros r Hr' Hi. pose proof (proj1 (Forall_forall _ _) Hb r Hr') as [_ Hr2].
     unfold inb in Hi. apply andb_true_iff in Hi. destruct Hi as [E1 E2]. apply Z.leb_le in E1. apply Z.ltb_lt in E2.
-    rewrite Nat.add_0_r, (Hbit (Z.to_nat (pos' r)) f l ltac:(lia) Hf Hl). reflexivity. }
+    rewrite Nat.add_0_r, (Hbit (Z.to_nat (pos' r)) f l ltac:(lia) Hf (lappl_simple fb HF1 f _ Hf Hcx) Hl). reflexivity. }
   rewrite andb_true_iff, forallb_forall. split.
   - intros [Hne Hall]. split.
     + apply existsb_exists. destruct plist as [|p ps] eqn:Epl; [contradiction|].
